@@ -368,3 +368,27 @@ M2('c15-location-partial-escape-keeps-percent', 'C15', 'R11', [
     {'file': 'falcon/util/uri.py', 'old': "                # encoded.\n                return uri\n",
      'new': "                # encoded.\n                return ''.join(keep_escapes(b) for b in uri.encode())\n"}],
    also=('C10',))
+
+# ---- wave 8: a cookie attribute is decided through a REBOUND local under a test of another parameter (R4 def-use with control)
+SECURE_BLOCK = """        if is_secure:
+            self._cookies[name]['secure'] = True
+
+"""
+PARTITIONED_BLOCK = """        if partitioned:
+            self._cookies[name]['partitioned'] = True
+"""
+# seeded change s8-c15-2 ("rfc6265bis 4.1.2.7"): set_cookie('sid', 'v', secure=False, same_site='None') emits Secure
+M2('c15-samesite-none-forces-secure-local', 'C15', 'R4', [
+    {'file': RESP, 'old': SECURE_BLOCK, 'new': ''},
+    {'file': RESP, 'old': PARTITIONED_BLOCK,
+     'new': "            if same_site == 'none':\n                is_secure = True\n\n" + SECURE_BLOCK + PARTITIONED_BLOCK}])
+# the same through the parameter itself, rebound before the default is taken: secure=False, partitioned=True emits Secure
+M('c15-partitioned-rebinds-secure-param', 'C15', 'R4', RESP,
+  "        is_secure = self.options.secure_cookies_by_default if secure is None else secure\n",
+  "        if partitioned:\n            secure = True\n"
+  "        is_secure = self.options.secure_cookies_by_default if secure is None else secure\n")
+# another attribute, two hops: http_only=False on a host-only Secure cookie emits HttpOnly
+M('c15-secure-host-only-forces-httponly', 'C15', 'R4', RESP,
+  "        if http_only:\n            self._cookies[name]['httponly'] = http_only\n",
+  "        harden = False\n        if is_secure and not domain:\n            harden = True\n"
+  "        if http_only or harden:\n            self._cookies[name]['httponly'] = True\n")
